@@ -1,4 +1,4 @@
-//@@ unit props=C15,C06 rlimit=150
+//@@ unit props=C15,C06,C14 rlimit=150
 // Unit shared: xlsx shared-formula reference rewriting (src/xlsx/mod.rs: offset_cell_name, offset_cell_reference, replace_cell_names, coordinate_to_name), verbatim text.
 #![feature(allocator_api)]
 #![allow(unused_imports, dead_code, unused_variables, unused_mut, unused_assignments)]
@@ -130,17 +130,17 @@ proof fn lemma_a1_small_range(s: Seq<u8>, nl: int)
 //@@ end
 
 // (3 lines; re-verified here because the proof below needs the zero-row clause that unit a1 does not state for this wrapper)
-//@@ fn src/xlsx/mod.rs get_row_column props=C15 ret=r
+//@@ fn src/xlsx/mod.rs get_row_column props=C15,C14 ret=r
 //@@ sig
     ensures
-        //# C15.a1_cell_decode
+        //# C15,C14.a1_cell_decode
         forall|nl: int| #[trigger] a1_small(range@, nl) && nl >= 1 && dec10(range@.subrange(nl, range@.len() as int)) >= 1 ==>
             r == Ok::<(u32, u32), XlsxError>((a1_value(range@, nl).0, (b26(range@.subrange(0, nl)) - 1) as u32)),
-        //# C15.a1_cell_needs_column
+        //# C15,C14.a1_cell_needs_column
         forall|nl: int| #[trigger] a1_small(range@, nl) && nl == 0 ==> r is Err,
-        //# C15.a1_cell_needs_row
+        //# C15,C14.a1_cell_needs_row
         forall|nl: int| #[trigger] a1_small(range@, nl) && dec10(range@.subrange(nl, range@.len() as int)) == 0 ==> r is Err,
-        //# C15.a1_cell_malformed_rejected
+        //# C15,C14.a1_cell_malformed_rejected
         (forall|nl: int| !#[trigger] a1_shape(range@, nl)) ==> r is Err,
 //@@ end
 
@@ -196,13 +196,13 @@ pub assume_specification<T, Item: ?Sized>[ <[T]>::concat::<Item> ](s: &[T]) -> (
 pub broadcast axiom fn axiom_concat2(s: &[Vec<u8>])
     ensures s@.len() == 2 ==> (#[trigger] concat_of::<Vec<u8>, u8>(s))@ == s@[0]@ + s@[1]@;
 
-//@@ fn src/xlsx/mod.rs coordinate_to_name props=C15 ret=r
+//@@ fn src/xlsx/mod.rs coordinate_to_name props=C15,C14 ret=r
 //@@ sig
     // No precondition: `cell.0 as u64 + 1` cannot overflow (discharged as an implicit obligation).
     ensures
-        //# C15.name_err_iff_col_out_of_range
+        //# C15,C14.name_err_iff_col_out_of_range
         cell.1 >= 16384 <==> r is Err,
-        //# C15.name_is_letters_then_decimal
+        //# C15,C14.name_is_letters_then_decimal
         cell.1 < 16384 ==> r is Ok && is_name_of(r->Ok_0@, cell.0 as int, cell.1 as int),
 //@@ body
     broadcast use axiom_display_u64, axiom_concat2;
@@ -312,12 +312,12 @@ pub open spec fn offset_small(offset: (i64, i64)) -> bool {
     -0x1_0000_0000 < offset.0 < 0x2_0000_0000 && -0x1_0000_0000 < offset.1 < 0x2_0000_0000
 }
 
-//@@ fn src/xlsx/mod.rs offset_cell_name props=C15,C06 ret=r
+//@@ fn src/xlsx/mod.rs offset_cell_name props=C15,C06,C14 ret=r
 //@@ sig
     requires
         offset_small(offset),
     ensures
-        //# C15.relative_shift
+        //# C15,C14.relative_shift
         forall|nl: int| #[trigger] plain_ref(name@, nl)
             && 0 <= ref_row(name@, nl) + offset.0 <= 0xFFFF_FFFF && 0 <= ref_col(name@, nl) + offset.1 < 16384 ==>
             r is Ok && is_name_of(r->Ok_0@, ref_row(name@, nl) + offset.0, ref_col(name@, nl) + offset.1),
@@ -325,12 +325,12 @@ pub open spec fn offset_small(offset: (i64, i64)) -> bool {
         // (a reference moved above row 1, left of column A, right of column XFD or beyond the u32 rows is an error, not a wrapped name)
         forall|nl: int| #[trigger] plain_ref(name@, nl)
             && !(0 <= ref_row(name@, nl) + offset.0 <= 0xFFFF_FFFF && 0 <= ref_col(name@, nl) + offset.1 < 16384) ==> r is Err,
-        //# C15.non_reference_rejected
+        //# C15,C14.non_reference_rejected
         forall|nl: int| all_ascii(name@) && #[trigger] a1_small(lowb(name@), nl)
             && (nl == 0 || dec10(lowb(name@).subrange(nl, name@.len() as int)) == 0) ==> r is Err,
-        //# C15.malformed_rejected
+        //# C15,C14.malformed_rejected
         (forall|nl: int| !#[trigger] a1_shape(lowb(name@), nl)) ==> r is Err,
-        //# C15.name_is_ascii
+        //# C15,C14.name_is_ascii
         r is Ok ==> bytes_ascii(r->Ok_0@),
 //@@ replace /name\.iter\(\)\.map\(\|c\| \*c as u8\)\.collect::<Vec<_>>\(\)/ vstd's Map gives no relation to the closure; the expression is replaced by a call of verif_low_bytes, whose TRUSTED contract states what `.iter().map(|c| *c as u8).collect()` yields
 verif_low_bytes(name)
@@ -571,18 +571,18 @@ pub open spec fn string_literal(s: Seq<char>) -> bool {
 
 // (child modules: smaller proof context; the inner one sees the private function of the outer one)
 pub mod ocr { use super::*;
-//@@ fn src/xlsx/mod.rs offset_cell_reference props=C15,C06 ret=r
+//@@ fn src/xlsx/mod.rs offset_cell_reference props=C15,C06,C14 ret=r
 //@@ sig
     requires
         offset_small(offset),
     ensures
-        //# C15.reference_translated
+        //# C15,C14.reference_translated
         forall|p: int, nl: int, m: int, nd: int| all_ascii(name@) && #[trigger] single_ref(lowb(name@), p, nl, m, nd)
             && single_in_sheet(lowb(name@), p, nl, m, offset.0 as int, offset.1 as int) ==>
             r is Ok && exists|nlo: int| #[trigger] single_translated(lowb(r->Ok_0@), nlo, lowb(name@), p, nl, m, offset.0 as int, offset.1 as int),
-        //# C15.empty_name_rejected
+        //# C15,C14.empty_name_rejected
         name@.len() == 0 ==> r is Err,
-        //# C15.reference_is_ascii
+        //# C15,C14.reference_is_ascii
         all_ascii(name@) && r is Ok ==> all_ascii(r->Ok_0@),
 //@@ body
     let ghost nm = name@;
@@ -695,24 +695,24 @@ pub mod ocr { use super::*;
     }
 //@@ end
 pub mod rcn { use super::*;
-//@@ fn src/xlsx/mod.rs replace_cell_names props=C15,C06 ret=r
+//@@ fn src/xlsx/mod.rs replace_cell_names props=C15,C06,C14 ret=r
 //@@ sig
     requires
         offset_small(offset),
     ensures
-        //# C15.non_reference_text_never_fails
+        //# C15,C14.non_reference_text_never_fails
         r is Ok,
-        //# C15.ascii_formula_never_fails
+        //# C15,C14.ascii_formula_never_fails
         all_ascii(s@) ==> r is Ok && all_ascii(r->Ok_0@),
-        //# C15.single_reference_translated
+        //# C15,C14.single_reference_translated
         forall|p: int, nl: int, m: int, nd: int| all_ascii(s@) && #[trigger] single_ref(lowb(s@), p, nl, m, nd)
             && single_in_sheet(lowb(s@), p, nl, m, offset.0 as int, offset.1 as int) ==>
             r is Ok && all_ascii(r->Ok_0@)
             && exists|nlo: int| #[trigger] single_translated(lowb(r->Ok_0@), nlo, lowb(s@), p, nl, m, offset.0 as int, offset.1 as int),
-        //# C15.function_name_digit_letter_kept
+        //# C15,C14.function_name_digit_letter_kept
         forall|a: int, b: int, c: int| all_ascii(s@) && #[trigger] call_shape(lowb(s@), a, b, c) ==>
             r is Ok && all_ascii(r->Ok_0@) && lowb(r->Ok_0@) == lowb(s@),
-        //# C15.string_literal_kept
+        //# C15,C14.string_literal_kept
         // (whatever it contains: cell-like text, non-ASCII characters)
         string_literal(s@) ==> r is Ok && r->Ok_0@ == s@,
 //@@ body
